@@ -77,7 +77,15 @@ def link_ir(lls, out):
     return out
 
 
+_ll2c_lock = threading.Lock()
+
+
 def to_c(ll, out_c, roots, stubs=()):
+    with _ll2c_lock:
+        return _to_c(ll, out_c, roots, stubs)
+
+
+def _to_c(ll, out_c, roots, stubs=()):
     sys.path.insert(0, ENGINE)
     import ll2c
     ll2c.AUTOSTUBS_TEXT[0] = ''
